@@ -118,6 +118,15 @@ Theorem c19_context_keys_covered : keys_covered source_context_keys = true.
 Proof. exact context_keys_covered. Qed.
 Print Assumptions c19_context_keys_covered.
 
+(* ... the same for what the evaluator is handed besides the context (methods of the environment types under flows/:
+   only DefaultCountry / DefaultLocale touch URNs, and env_view carries the country) and for the functions that
+   return an XValue directly (only the two transcribed URN sinks touch URNs) *)
+Theorem c19_environment_and_value_builders_covered :
+  rows_eqb model_env_methods source_env_methods = true /\
+  rows_eqb model_value_builders source_value_builders = true.
+Proof. exact env_and_values_covered. Qed.
+Print Assumptions c19_environment_and_value_builders_covered.
+
 (* ... and the tree the model builds has exactly the keys of that table at every transcribed builder *)
 Theorem c19_model_tree_has_table_keys : forall e chans c i r s ch,
   xv_keys (contact_context e chans c) = dflt_first (table_keys "flows.Contact.Context") /\
